@@ -7,7 +7,7 @@ import shutil
 import subprocess
 
 ROOT = os.path.dirname(os.path.dirname(os.path.abspath(__file__)))
-EVID_DIR = os.path.join(ROOT, "evidence")
+EVID_DIR = os.environ.get("SPECMC_EVIDENCE_DIR") or os.path.join(ROOT, "evidence")
 SCHEMA = os.path.join(ROOT, "schemas", "EVIDENCE.schema.json")
 
 
